@@ -28,6 +28,20 @@ type Stats struct {
 	FDUnsat            int64
 	FDCrossChecked     int64
 	FDMismatch         int64
+	FallbackQueries    int64
+	FallbackDecided    int64
+}
+
+func (i *interpreter) fallbackSolver(name string) *smt.Solver {
+	if s, ok := i.fallbacks[name]; ok {
+		return s
+	}
+	s, err := smt.NewSolver(name, i.cfg.SolverTimeoutMs*3)
+	if err != nil {
+		s = nil
+	}
+	i.fallbacks[name] = s
+	return s
 }
 
 // ---------------------------------------------------------------- undo log
